@@ -9,7 +9,9 @@ spellings give the same verdict:
   `if a and b: X`;
 * `x = x + k` / `x = x - k` with an integer-like right operand (an int constant or a `len(...)`
   call) and a plain name or `name.attr` target is written `x += k` / `x -= k` (for such operands
-  the two are the same operation; sequences are left alone because `+=` mutates in place).
+  the two are the same operation; sequences are left alone because `+=` mutates in place);
+* annotations are erased: `x: T = v` becomes `x = v`, a bare `x: T` is dropped, parameter and
+  return annotations are removed.
 """
 from __future__ import annotations
 
@@ -88,6 +90,23 @@ class _Canon2(ast.NodeTransformer):
             new = ast.If(test=ast.BoolOp(op=ast.And(), values=vals), body=inner.body, orelse=[])
             return ast.copy_location(new, node)
         return node
+
+    def visit_AnnAssign(self, node):
+        # `x: T = v` is `x = v` for every rule; a bare declaration `x: T` does nothing at run time
+        self.generic_visit(node)
+        if node.value is None:
+            return ast.copy_location(ast.Pass(), node)
+        return self.visit_Assign(ast.copy_location(ast.Assign(targets=[node.target], value=node.value), node))
+
+    def visit_FunctionDef(self, node):
+        self.generic_visit(node)
+        node.returns = None
+        for a in node.args.posonlyargs + node.args.args + node.args.kwonlyargs + [node.args.vararg, node.args.kwarg]:
+            if a is not None:
+                a.annotation = None
+        return node
+
+    visit_AsyncFunctionDef = visit_FunctionDef
 
     def visit_Assign(self, node):
         self.generic_visit(node)
